@@ -9,6 +9,7 @@ ASSUME = ['the table is read from the AST of v3/util/gtld_map.go on every run; d
 def run(ctx):
     exe = vlib.build(ctx)
     vlib.tlc_mc(ctx, 'MC_TLD', 'MC_TLD', workers=1)
+    vlib.tlapm(ctx, 'Proofs_Intervals')   # unbounded: the delegation window is closed at both ends, non-empty when well-formed
     d = vlib.drive(ctx, exe, 'tld')
     s = json.load(open(os.path.join(d, 'summary.json')))
     if not s['template']:
